@@ -1,7 +1,7 @@
 CONSTANTS
   Ids = {"a"}
   Rich = 0
-  SimLen = 4
+  SimLen = 3
   Sim = FALSE
 INIT GInit
 NEXT GNext
